@@ -8,6 +8,7 @@ import (
 	"errors"
 	"fmt"
 	"math/rand/v2"
+	"slices"
 	"strings"
 	"sync"
 	"sync/atomic"
@@ -36,9 +37,9 @@ func TestC16(t *testing.T) {
 			"instant; cancellation enumerated over seeded virtual instants with a goroutine census. distinct = (plan kind, seed-derived config, instant) hash; non-trivial = the plan produced >= 8 " +
 			"consecutive failures or a shutdown under load (writes in flight)")
 		c.Assume("back-off constants of the implementation are not judged, only growth and reset on streaks; exact cenkalti bands are reported as info")
-		c.Require("controller_streaks", "queue_item_streaks", "hook_streaks", "task_streaks", "healthy_checks_during_backoff", "watch_errors_injected", "cancellations", "requeue_intervals_checked", "final_convergence_checks", "tracking_window_faults")
+		c.Require("controller_streaks", "queue_item_streaks", "hook_streaks", "task_streaks", "healthy_checks_during_backoff", "watch_errors_injected", "cancellations", "requeue_intervals_checked", "final_convergence_checks", "tracking_window_faults", "parked_item_plans")
 
-		plans := []func(*vk.C, *rand.Rand, int){controllerFaults, queueFaults, watchError, cancellation, tasks, trackingFaults}
+		plans := []func(*vk.C, *rand.Rand, int){controllerFaults, queueFaults, watchError, cancellation, tasks, trackingFaults, parkedItem}
 		n := c.N(400, 40000)
 
 		var wg sync.WaitGroup
@@ -261,6 +262,109 @@ func pickCached(rng *rand.Rand) []rtp.Kind {
 		if rng.IntN(3) == 0 {
 			out = append(out, kd)
 		}
+	}
+
+	return out
+}
+
+// ---- plan 7: an item parked with a long requested delay next to an item failing with plain errors ------------------------------
+// Item p asks to be retried after a long interval (error + requeue-after) once or twice; item x is then created, fails 6-8 times
+// with plain errors and succeeds. Nothing else is written, so nothing but the queue's own timers drives the retries: x's retries must
+// not wait for p (first retry well before p's deadline; no gap of an uninterrupted streak collapses to less than 1/8 of the previous
+// one - a first gap stretched to p's deadline would make the second one collapse). (Whether p itself waits out its interval is judged
+// under C09, where fresh notifications for the item are accounted for.)
+func parkedItem(c *vk.C, rng *rand.Rand, k int) {
+	kA := rtp.Kinds[0]
+	parkMS := 40_000 + rng.IntN(40_000)
+	nFail := 6 + rng.IntN(3)
+
+	xOut := []string{}
+	for i := 0; i < nFail; i++ {
+		xOut = append(xOut, []string{"err", "panic"}[rng.IntN(2)])
+	}
+
+	xOut = append(xOut, "ok")
+
+	cfg := rtp.Cfg{MaxDelay: rng.IntN(2), QCtrls: []rtp.QCfg{{
+		Name: "PQ", Inputs: []controller.Input{in(kA, controller.InputQPrimary)}, Concurrency: uint(1 + rng.IntN(3)),
+		Outcomes: map[string][]string{"p": {fmt.Sprintf("requeueerr:%d", parkMS), fmt.Sprintf("requeueerr:%d", parkMS), "ok"}, "x": xOut},
+	}}}
+
+	w, err := rtp.NewWorld(rng, cfg)
+	if err != nil {
+		c.Violation("world-setup-failed", err.Error())
+
+		return
+	}
+
+	ctx, cancel := context.WithCancel(context.Background())
+	defer cancel()
+
+	w.Run(ctx)
+
+	_ = w.Write(ctx, rtp.WCreate, gp.Key{NS: kA.NS, Type: kA.Type, ID: "p"}, "")
+	rtp.Quiesce(time.Duration(500+rng.IntN(3000)) * time.Millisecond) // p has failed once and is parked
+	_ = w.Write(ctx, rtp.WCreate, gp.Key{NS: kA.NS, Type: kA.Type, ID: "x"}, "")
+	rtp.Quiesce(10 * time.Minute)
+
+	var px, pp []*rtp.Wake
+
+	for _, wk := range w.Wakes() {
+		if wk.Kind != "reconcile" {
+			continue
+		}
+
+		switch wk.Target.ID {
+		case "x":
+			px = append(px, wk)
+		case "p":
+			pp = append(pp, wk)
+		}
+	}
+
+	cancel()
+	w.WaitRun()
+	synctest.Wait()
+
+	detail := map[string]any{"plan": "parked-item", "park_ms": parkMS, "x_outcomes": xOut, "x_reconciles_at_ms": times(px), "p_reconciles_at_ms": times(pp)}
+
+	if len(px) < nFail+1 || len(pp) < 3 {
+		c.Violation("no-restart-after-failure", detail)
+
+		return
+	}
+
+	var gaps []float64
+	for i := 0; i < nFail; i++ {
+		gaps = append(gaps, px[i+1].AtMS-px[i].EndMS)
+	}
+
+	detail["x_gaps_ms"] = gaps
+
+	switch {
+	case gaps[0] >= float64(parkMS)/2:
+		c.Violation("failing-item-retry-blocked-by-parked-item", detail)
+	case slices.ContainsFunc(gaps, func(g float64) bool { return g <= 0 }):
+		c.Violation("restart-without-backoff", detail)
+	default:
+		for i := 0; i+1 < len(gaps); i++ {
+			if gaps[i+1] < gaps[i]/8 {
+				detail["index"] = i + 1
+				c.Violation("backoff-reset-without-success", detail)
+
+				return
+			}
+		}
+	}
+
+	c.Count("parked_item_plans", 1)
+	c.Case(vk.Hash("parked", k, parkMS, xOut), true)
+}
+
+func times(ws []*rtp.Wake) []float64 {
+	out := make([]float64, 0, len(ws))
+	for _, w := range ws {
+		out = append(out, w.AtMS)
 	}
 
 	return out
